@@ -48,7 +48,7 @@ MENU_CONN = {
     "connect": ["refused", "timeout"],
     "sendall": ["reset", "timeout_after", "partial_timeout", "eintr_after"],
     "recv": ["timeout", "reset", "eof", "eintr", "short1", "cut_cr"],
-    "reply": ["error", "client_error", "server_error", "garbage", "trunc_stall", "trunc_eof", "wrong_key"],
+    "reply": ["error", "client_error", "server_error", "garbage", "trunc_stall", "trunc_eof", "wrong_key", "bad_size"],
 }
 MENU_LIFECYCLE = dict(
     MENU_CONN,
@@ -143,6 +143,8 @@ class SimNet:
         self.call = 0
         self.blocked: list = []  # (call, sockid): a read that could never complete
         self.raw_io: list = []  # I/O on an unwrapped socket although TLS is configured
+        self.soft: list = []  # (call, addr, label) of soft reply deviations that took effect
+        self.force_reply = None  # harness: label of a reply deviation to apply to the next VALUE reply
         self.tls_required = False  # harness: every connection of this scenario is meant to be TLS-wrapped
         self.failing: dict = {}  # addrkey -> 'refused' | 'timeout' | 'reset' | 'unreach'  (persistent, C13)
         self.sent: list = []  # (call, sockid, bytes) everything handed to sendall and delivered
@@ -439,8 +441,19 @@ class SimSocket:
             pos = npos
             rep, outcome, close = srv.execute(item)
             c = "ok"
-            if rep and net.chooser is not None and not isinstance(item, Malformed):
+            if rep and net.force_reply is not None and rep.startswith(b"VALUE "):
+                c, net.force_reply = net.force_reply, None  # scripted one-shot deviation (no explorer involved)
+            elif rep and net.chooser is not None and not isinstance(item, Malformed):
                 c = self._reply_choice(rep)
+            if c == "odd_cas":
+                # a soft deviation: the item arrives intact, only its cas field is not a number ("12?4");
+                # whether that is a hit with an odd token or a failure is the client's call - it is not in net.hard
+                head, _, tail = rep.partition(b"\r\n")
+                f = head.split(b" ")
+                f[4] = b"12?4"
+                rep = b" ".join(f) + b"\r\n" + tail
+                net.soft.append((net.call, self.addr, c))
+                c = "ok"
             if c != "ok":
                 conn.deviated = True
                 net.hard.append((net.call, self.addr, c))
@@ -455,6 +468,13 @@ class SimSocket:
                     rep = b"GARBAGE 1 2\r\n"
                 elif c == "wrong_key":
                     rep = rep.replace(b"VALUE ", b"VALUE zz", 1)
+                elif c == "bad_size":
+                    # a header whose <bytes> field is not a number ("VALUE k 0 six"): the reader fails with a
+                    # ValueError, which is neither an OSError nor a MemcacheError
+                    head, _, tail = rep.partition(b"\r\n")
+                    f = head.split(b" ")
+                    f[3] = b"six"
+                    rep = b" ".join(f) + b"\r\n" + tail
                 else:
                     kind, cut = c
                     rep = rep[:cut]
@@ -483,8 +503,11 @@ class SimSocket:
             if lab in ("trunc_stall", "trunc_eof"):
                 for cut in net.trunc_positions(len(rep)):
                     exp.append((lab, cut))
-            elif lab == "wrong_key":
+            elif lab in ("wrong_key", "bad_size"):
                 if rep.startswith(b"VALUE "):
+                    exp.append(lab)
+            elif lab == "odd_cas":
+                if rep.startswith(b"VALUE ") and len(rep.partition(b"\r\n")[0].split(b" ")) == 5:
                     exp.append(lab)
             else:
                 exp.append(lab)
